@@ -306,7 +306,7 @@ def parts(tier):
     return [
         Part("limits", run, strategy=cases(sweep=(tier == "thorough")),
              n={"quick": 480, "thorough": 16 * 300},
-             require={"partial-inclusion": 80, "tc-set": 80, "dropped-only-additional": 20, "padded": 50,
+             require={"partial-inclusion": 80, "tc-set": 40, "dropped-only-additional": 20, "padded": 50,
                       "padded+tsig": 15, "block-sweep+tsig": 100, "tsig-other-data": 40, "tsig": 50, "toobig": 80, "limit<512": 50},
              shards={"quick": 16, "thorough": 16}),
     ]
